@@ -9,7 +9,7 @@ CONSTANTS MaxLen, OutFile
 Lens == 0..MaxLen
 ScenarioSpace ==
   UNION {
-    { [len |-> l, cuts |-> SetToSortSeq(c, <), enc |-> e, fail |-> f, short |-> sh, werr |-> we, stop |-> st, assigned |-> a] :
+    { [len |-> l, cuts |-> SetToSortSeq(c, <), enc |-> e, fail |-> f, short |-> sh, werr |-> we, stop |-> st, flip |-> fl, assigned |-> a] :
         c \in SUBSET (1..(l - 1)),
         e \in {"identity", "gzip"},
         f \in {[kind |-> "none", off |-> 0]}
@@ -17,7 +17,7 @@ ScenarioSpace ==
               \cup {[kind |-> k, off |-> o] : k \in BodyKinds, o \in 0..(l - 1)},   \* breaking off exactly at the end is not "part-way"
         sh \in {0, 1},
         we \in {0},
-        st \in BOOLEAN, a \in BOOLEAN }
+        st \in BOOLEAN, fl \in BOOLEAN, a \in BOOLEAN }
     : l \in Lens }
 \* cuts are kept as a sorted sequence in the exported scenario; the specification wants a set
 AsSpec(s) == [s EXCEPT !.cuts = {s.cuts[k] : k \in DOMAIN s.cuts}]
